@@ -65,7 +65,8 @@ def normalized_tokens(src):
 # loops (tools/translate.py, LoopsGen): ("for", pat, iter, body) with pat = name | None (`_`); ("while", cond, body)
 #  ("whilelet", name, e, body) for `while let Some(name) = e`; ("loop", body); statement ("break",)
 #  ("iflet", name, e, then_block, else_block_or_None) for `if let Some(name) = e`; ("vecrep", elem, count) for
-#  `vec![elem; count]`; ("index", a, ("rangeto", k) | ("rangefrom", j) | ("range", j, k)) for slices
+#  `vec![elem; count]`; ("index", a, ("rangeto", k) | ("rangefrom", j) | ("range", j, k)) for slices;
+#  ("veclit", [es]) for `vec![a, b, ..]` / `vec![]`; ("refmut", e) for `&mut e` (only as an argument for a `&mut` parameter)
 # ---------------------------------------------------------------------------------------------
 
 BINPREC = {
@@ -153,6 +154,7 @@ class Parser:
             self.next()
             if self.at("id", "mut"):
                 self.next()
+                return ("refmut", self.parse_unary_postfix_cast())
             return ("ref", self.parse_unary_postfix_cast())
         return self.parse_postfix()
 
@@ -268,11 +270,23 @@ class Parser:
             if path == ["vec"] and self.at("op", "!") and self.peek(1) == ("op", "["):
                 self.next()
                 self.next()
+                if self.at("op", "]"):                       # vec![]
+                    self.next()
+                    return ("veclit", [])
                 elem = self.parse_expr()
-                self.expect("op", ";")                       # only the `vec![elem; count]` form
-                count = self.parse_expr()
+                if self.at("op", ";"):                       # vec![elem; count]
+                    self.next()
+                    count = self.parse_expr()
+                    self.expect("op", "]")
+                    return ("vecrep", elem, count)
+                elems = [elem]                               # vec![a, b, ..]
+                while self.at("op", ","):
+                    self.next()
+                    if self.at("op", "]"):
+                        break
+                    elems.append(self.parse_expr())
                 self.expect("op", "]")
-                return ("vecrep", elem, count)
+                return ("veclit", elems)
             if len(path) == 1 and self.at("op", "{") and self.looks_like_struct_literal(path[0]):
                 return self.parse_struct_literal(path[0])
             if len(path) == 1:
@@ -425,6 +439,8 @@ class Parser:
                     self.expect("op", ";")
                     stmts.append(("lettuple", names, e))
                     continue
+                if self.at("op", "&") and not mutable:       # `let &x = e;` (e is a reference to a Copy value)
+                    self.next()
                 name = self.expect("id")[1]
                 if self.at("op", ":"):
                     self.next()
